@@ -7,10 +7,25 @@ package queue
 // the property is evaluated on the real execution.
 //
 // op: C18 q <utf8> <rtls> <pipeline> <maxTries> <failAt> <from> <ofrom> <rcvd> <hdr> <host> <domain>
-//           <msgid> <names> <omap> <rcpts> <plans> <idna-table> <truth>
+//           <msgid> <names> <omap> <rcpts> <plans> <idna-table> <kind> <front> <truth>
 //   names  id=hex,…           the strings the address ids stand for (0 = "")
-//   omap   key>val,…          MsgMeta.OriginalRcpts (ids)
-//   plans  attempt;attempt…   attempt = id=err,… (err: verr prefix notation joined by ~) or -
+//   omap   key>val,…          MsgMeta.OriginalRcpts (ids) prepared by the harness (front = -)
+//   plans  attempt;attempt…   attempt = item,… or -; item (err: verr prefix notation joined by ~):
+//                             id=err   the target refuses the recipient at AddRcpt
+//                             S=err    the target's Start fails
+//                             B=err    Body fails (atomic target: the message is refused at DATA)
+//                             b<id>=err per-recipient status after the body (kind p: PartialDelivery)
+//                             C=err    Commit fails
+//   kind   a | p              the downstream target is atomic / implements module.PartialDelivery
+//   front  -                  the message is handed to Queue.Start directly, OriginalRcpts prepared
+//          <nested>/<given>/<g>/<s>/<r>/<n>
+//                             the message is submitted to a REAL msgpipeline.MsgPipeline whose
+//                             default route ends in the queue; given = the recipients the sender
+//                             names (ids joined by +); g, s, r = rewrite rules (in>out+out,…) of
+//                             the global / per-source / per-destination modifiers; nested = 1: the
+//                             destination block reroutes into a second real pipeline with the
+//                             global rules n; the sender modifier maps <ofrom> to <from>.
+//                             rcpts is then what the generator expects the queue to be given
 //   truth  eff:root:levels,…  ground truth for the monitor only: the address the sender used for
 //                             each effective recipient and the number of rewriting levels
 
@@ -30,9 +45,12 @@ import (
 
 	"github.com/emersion/go-message/textproto"
 	"github.com/emersion/go-smtp"
+	"github.com/foxcpp/maddy/framework/address"
 	"github.com/foxcpp/maddy/framework/buffer"
+	"github.com/foxcpp/maddy/framework/config"
 	"github.com/foxcpp/maddy/framework/log"
 	"github.com/foxcpp/maddy/framework/module"
+	"github.com/foxcpp/maddy/internal/msgpipeline"
 	"github.com/foxcpp/maddy/internal/verifshim/vdsn"
 	"github.com/foxcpp/maddy/internal/verifshim/verr"
 	"github.com/foxcpp/maddy/internal/verifshim/vh"
@@ -50,9 +68,91 @@ type c18Case struct {
 	names                map[int]string
 	omap                 [][2]int
 	rcpts                []int
-	plans                []map[int]*verr.Node
+	plans                []*c18Plan
+	kind                 byte // 'a' atomic, 'p' PartialDelivery
+	front                *c18Front
 	root                 map[int]int
 	levels               map[int]int
+}
+
+// c18Plan: what the scripted downstream target answers in one attempt.
+type c18Plan struct {
+	start, body, commit *verr.Node
+	rcpt, bodyRc        map[int]*verr.Node
+}
+
+func c18NewPlan() *c18Plan {
+	return &c18Plan{rcpt: map[int]*verr.Node{}, bodyRc: map[int]*verr.Node{}}
+}
+
+// c18Front: the real pipeline(s) the message passes before it reaches the queue.
+type c18Front struct {
+	nested     bool
+	given      []int
+	g, s, r, n [][]int // rules: [in, out…]
+}
+
+func c18RulesStr(rs [][]int) string {
+	if len(rs) == 0 {
+		return "-"
+	}
+	var l []string
+	for _, r := range rs {
+		var o []string
+		for _, x := range r[1:] {
+			o = append(o, strconv.Itoa(x))
+		}
+		l = append(l, strconv.Itoa(r[0])+">"+strings.Join(o, "+"))
+	}
+	return strings.Join(l, ",")
+}
+
+func c18ParseRules(s string) [][]int {
+	if s == "-" {
+		return nil
+	}
+	var rs [][]int
+	for _, e := range strings.Split(s, ",") {
+		kv := strings.SplitN(e, ">", 2)
+		k, _ := strconv.Atoi(kv[0])
+		r := []int{k}
+		for _, o := range strings.Split(kv[1], "+") {
+			v, _ := strconv.Atoi(o)
+			r = append(r, v)
+		}
+		rs = append(rs, r)
+	}
+	return rs
+}
+
+func (f *c18Front) String() string {
+	if f == nil {
+		return "-"
+	}
+	var g []string
+	for _, x := range f.given {
+		g = append(g, strconv.Itoa(x))
+	}
+	gs := strings.Join(g, "+")
+	if gs == "" {
+		gs = "-"
+	}
+	return strings.Join([]string{c18Bool(f.nested), gs, c18RulesStr(f.g), c18RulesStr(f.s), c18RulesStr(f.r), c18RulesStr(f.n)}, "/")
+}
+
+func c18ParseFront(s string) *c18Front {
+	if s == "-" {
+		return nil
+	}
+	t := strings.Split(s, "/")
+	f := &c18Front{nested: t[0] == "1", g: c18ParseRules(t[2]), s: c18ParseRules(t[3]), r: c18ParseRules(t[4]), n: c18ParseRules(t[5])}
+	if t[1] != "-" {
+		for _, x := range strings.Split(t[1], "+") {
+			v, _ := strconv.Atoi(x)
+			f.given = append(f.given, v)
+		}
+	}
+	return f
 }
 
 func c18Bool(b bool) string {
@@ -74,6 +174,27 @@ func (c *c18Case) idOf(s string) string {
 		}
 	}
 	return "?" + vh.HexRunes(s)
+}
+
+// intermediateOf: the address the LAST pipeline level was given for the effective recipient r
+// (what a one-level look-up in OriginalRcpts lands on); 0 = r was not rewritten by it.
+func (c *c18Case) intermediateOf(r int) int {
+	if c.front == nil {
+		for _, kv := range c.omap {
+			if kv[0] == r {
+				return kv[1]
+			}
+		}
+		return 0
+	}
+	for _, rule := range c.front.n {
+		for _, o := range rule[1:] {
+			if o == r && rule[0] != r {
+				return rule[0]
+			}
+		}
+	}
+	return 0
 }
 
 func c18SortedIDs(m map[int]string) []int {
@@ -100,11 +221,20 @@ func (c *c18Case) op() string {
 	}
 	for _, p := range c.plans {
 		var es []string
-		for _, r := range c.rcpts {
-			if n := p[r]; n != nil {
-				es = append(es, fmt.Sprintf("%d=%s", r, strings.ReplaceAll(n.String(), " ", "~")))
+		es1 := func(k string, n *verr.Node) {
+			if n != nil {
+				es = append(es, k+"="+strings.ReplaceAll(n.String(), " ", "~"))
 			}
 		}
+		es1("S", p.start)
+		for _, r := range c.rcpts {
+			es1(strconv.Itoa(r), p.rcpt[r])
+		}
+		es1("B", p.body)
+		for _, r := range c.rcpts {
+			es1("b"+strconv.Itoa(r), p.bodyRc[r])
+		}
+		es1("C", p.commit)
 		if len(es) == 0 {
 			plans = append(plans, "-")
 		} else {
@@ -119,7 +249,8 @@ func (c *c18Case) op() string {
 	}
 	return strings.Join([]string{"C18", "q", c18Bool(c.utf8), c18Bool(c.rtls), c18Bool(c.pipeline), strconv.Itoa(c.maxTries), string([]byte{c.failAt}),
 		strconv.Itoa(c.from), strconv.Itoa(c.ofrom), vh.HexRunes(c.rcvd), strconv.Itoa(c.hdr), vh.HexRunes(c.host), vh.HexRunes(c.domain), vh.HexRunes(c.msgid),
-		j(names), j(omap), j(rcpts), strings.Join(plans, ";"), vdsn.Table(c.utf8, addrs, []string{c.host, c.rcvd}), j(truth)}, " ")
+		j(names), j(omap), j(rcpts), strings.Join(plans, ";"), vdsn.Table(c.utf8, addrs, []string{c.host, c.rcvd}),
+		string([]byte{c.kind}), c.front.String(), j(truth)}, " ")
 }
 
 func c18Parse(op string) *c18Case {
@@ -146,15 +277,28 @@ func c18Parse(op string) *c18Case {
 		c.rcpts = append(c.rcpts, atoi(e))
 	}
 	for _, ps := range strings.Split(t[17], ";") {
-		p := map[int]*verr.Node{}
+		p := c18NewPlan()
 		for _, e := range list(ps) {
 			kv := strings.SplitN(e, "=", 2)
 			n, _ := verr.Parse(strings.Split(kv[1], "~"))
-			p[atoi(kv[0])] = n
+			switch {
+			case kv[0] == "S":
+				p.start = n
+			case kv[0] == "B":
+				p.body = n
+			case kv[0] == "C":
+				p.commit = n
+			case kv[0][0] == 'b':
+				p.bodyRc[atoi(kv[0][1:])] = n
+			default:
+				p.rcpt[atoi(kv[0])] = n
+			}
 		}
 		c.plans = append(c.plans, p)
 	}
-	for _, e := range list(t[19]) {
+	c.kind = t[19][0]
+	c.front = c18ParseFront(t[20])
+	for _, e := range list(t[21]) {
 		f := strings.Split(e, ":")
 		c.root[atoi(f[0])] = atoi(f[1])
 		c.levels[atoi(f[0])] = atoi(f[2])
@@ -162,30 +306,71 @@ func c18Parse(op string) *c18Case {
 	return c
 }
 
-// ---- scripted downstream target: fails recipients at AddRcpt according to the plan ----
+// ---- scripted downstream target: answers every stage of an attempt according to the plan ----
 
 type c18Target struct {
 	mu      sync.Mutex
 	c       *c18Case
 	attempt int        // attempts started so far
 	tries   [][]string // recipients offered per attempt
+	omaps   []string   // MsgMeta.OriginalRcpts as the target is shown it, per attempt
 }
 
 type c18Delivery struct {
-	t    *c18Target
-	plan map[int]*verr.Node
+	t        *c18Target
+	plan     *c18Plan
+	accepted []int
+}
+
+// c18PartialDelivery: the same target speaking LMTP-style per-recipient statuses.
+type c18PartialDelivery struct{ *c18Delivery }
+
+// omapStr renders a rewrite map with the ids of the case, sorted by key.
+func (c *c18Case) omapStr(m map[string]string) string {
+	type kv struct {
+		k    int
+		s, v string
+	}
+	var l []kv
+	for k, v := range m {
+		ks := c.idOf(k)
+		n, err := strconv.Atoi(ks)
+		if err != nil {
+			n = 1 << 30
+		}
+		l = append(l, kv{n, ks, c.idOf(v)})
+	}
+	sort.Slice(l, func(i, j int) bool {
+		if l[i].k != l[j].k {
+			return l[i].k < l[j].k
+		}
+		return l[i].s < l[j].s
+	})
+	var out []string
+	for _, e := range l {
+		out = append(out, e.s+">"+e.v)
+	}
+	return strings.Join(out, ",")
 }
 
 func (t *c18Target) Start(ctx context.Context, msgMeta *module.MsgMetadata, mailFrom string) (module.Delivery, error) {
 	t.mu.Lock()
 	defer t.mu.Unlock()
-	var p map[int]*verr.Node
+	p := c18NewPlan()
 	if t.attempt < len(t.c.plans) {
 		p = t.c.plans[t.attempt]
 	}
 	t.attempt++
 	t.tries = append(t.tries, nil)
-	return &c18Delivery{t: t, plan: p}, nil
+	t.omaps = append(t.omaps, t.c.omapStr(msgMeta.OriginalRcpts))
+	if p.start != nil {
+		return nil, p.start.Build()
+	}
+	d := &c18Delivery{t: t, plan: p}
+	if t.c.kind == 'p' {
+		return &c18PartialDelivery{d}, nil
+	}
+	return d, nil
 }
 
 func (d *c18Delivery) AddRcpt(ctx context.Context, to string, _ smtp.RcptOptions) error {
@@ -194,17 +379,37 @@ func (d *c18Delivery) AddRcpt(ctx context.Context, to string, _ smtp.RcptOptions
 	id := d.t.c.idOf(to)
 	d.t.tries[len(d.t.tries)-1] = append(d.t.tries[len(d.t.tries)-1], id)
 	n, _ := strconv.Atoi(id)
-	if node := d.plan[n]; node != nil {
+	if node := d.plan.rcpt[n]; node != nil {
 		return node.Build()
 	}
+	d.accepted = append(d.accepted, n)
 	return nil
 }
 
 func (d *c18Delivery) Body(ctx context.Context, header textproto.Header, body buffer.Buffer) error {
+	if d.plan.body != nil {
+		return d.plan.body.Build()
+	}
 	return nil
 }
-func (d *c18Delivery) Abort(ctx context.Context) error  { return nil }
-func (d *c18Delivery) Commit(ctx context.Context) error { return nil }
+
+func (d *c18PartialDelivery) BodyNonAtomic(ctx context.Context, sc module.StatusCollector, header textproto.Header, body buffer.Buffer) {
+	for _, r := range d.accepted {
+		if n := d.plan.bodyRc[r]; n != nil {
+			sc.SetStatus(d.t.c.name(r), n.Build())
+		} else {
+			sc.SetStatus(d.t.c.name(r), nil)
+		}
+	}
+}
+
+func (d *c18Delivery) Abort(ctx context.Context) error { return nil }
+func (d *c18Delivery) Commit(ctx context.Context) error {
+	if d.plan.commit != nil {
+		return d.plan.commit.Build()
+	}
+	return nil
+}
 
 // ---- scripted bounce pipeline ----
 
@@ -347,19 +552,66 @@ type c18Expect struct {
 	tries  [][]int // recipients of each attempt
 	failed [][]int // recipients failing terminally in each attempt
 	lastE  []map[int]*verr.Node
+	nostart []bool // the target refused the transaction at Start: no recipient is offered
+}
+
+// c18OwnErrors: the error each recipient of an attempt ends that attempt with, written from what
+// an SMTP/LMTP transaction means (not from queue.go): a refused transaction start concerns
+// everybody; a recipient refused at RCPT is out of the transaction with THAT reply - what happens
+// to the message afterwards concerns the accepted recipients only; a refusal of the message data
+// concerns every accepted recipient (an LMTP-style target answers per accepted recipient); the
+// final acknowledgement (Commit) is asked for only when somebody is still in the transaction, and
+// its failure is then the last word for every accepted recipient.
+func c18OwnErrors(kind byte, p *c18Plan, to []int) map[int]*verr.Node {
+	own := map[int]*verr.Node{}
+	if p.start != nil {
+		for _, r := range to {
+			own[r] = p.start
+		}
+		return own
+	}
+	var accepted []int
+	for _, r := range to {
+		if e := p.rcpt[r]; e != nil {
+			own[r] = e
+		} else {
+			accepted = append(accepted, r)
+		}
+	}
+	alive := 0
+	for _, r := range accepted {
+		var e *verr.Node
+		if kind == 'p' {
+			e = p.bodyRc[r]
+		} else {
+			e = p.body
+		}
+		if e != nil {
+			own[r] = e
+		} else {
+			alive++
+		}
+	}
+	if alive > 0 && p.commit != nil {
+		for _, r := range accepted {
+			own[r] = p.commit
+		}
+	}
+	return own
 }
 
 func c18Expected(c *c18Case) c18Expect {
 	var e c18Expect
 	to := append([]int{}, c.rcpts...)
 	for k := 0; len(to) > 0 && k < c.maxTries+1; k++ {
-		var p map[int]*verr.Node
+		p := c18NewPlan()
 		if k < len(c.plans) {
 			p = c.plans[k]
 		}
+		own := c18OwnErrors(c.kind, p, to)
 		var next, failed []int
 		for _, r := range to {
-			n := p[r]
+			n := own[r]
 			if n == nil {
 				continue
 			}
@@ -371,7 +623,8 @@ func c18Expected(c *c18Case) c18Expect {
 		}
 		e.tries = append(e.tries, to)
 		e.failed = append(e.failed, failed)
-		e.lastE = append(e.lastE, p)
+		e.lastE = append(e.lastE, own)
+		e.nostart = append(e.nostart, p.start != nil)
 		to = next
 	}
 	return e
@@ -418,6 +671,181 @@ func c18Join(ids []int) string {
 	return strings.Join(s, ",")
 }
 
+// ---- the real msgpipeline in front of the queue ----
+//
+// Two pipelines are built once from configuration nodes by msgpipeline.New (the constructor maddy
+// itself uses): modify { verif_c18_rw g } / default_source { modify { … s } default_destination {
+// modify { … r }  deliver_to &verif_c18_sink | reroute { modify { … n } deliver_to &verif_c18_sink } } }.
+// The modifier and the sink find the case they work for in the context, so the pipelines are
+// shared by all cases (a pipeline serves concurrent transactions in production, too).
+
+type c18CtxKey struct{}
+
+type c18FrontRun struct {
+	c *c18Case
+	q *Queue
+}
+
+type c18RwModifier struct{ stage string }
+
+func (m *c18RwModifier) Init(*config.Map) error { return nil }
+func (m *c18RwModifier) Name() string           { return "modify.verif_c18_rw" }
+func (m *c18RwModifier) InstanceName() string   { return "" }
+
+type c18RwState struct {
+	stage string
+	run   *c18FrontRun
+}
+
+func (m *c18RwModifier) ModStateForMsg(ctx context.Context, msgMeta *module.MsgMetadata) (module.ModifierState, error) {
+	run, _ := ctx.Value(c18CtxKey{}).(*c18FrontRun)
+	if run == nil {
+		return nil, errors.New("verif_c18_rw: no case in the context")
+	}
+	return &c18RwState{stage: m.stage, run: run}, nil
+}
+
+func (st *c18RwState) RewriteSender(ctx context.Context, mailFrom string) (string, error) {
+	c := st.run.c
+	if st.stage == "g" && mailFrom == c.name(c.ofrom) {
+		return c.name(c.from), nil
+	}
+	return mailFrom, nil
+}
+
+func (st *c18RwState) RewriteRcpt(ctx context.Context, rcptTo string) ([]string, error) {
+	c := st.run.c
+	var rules [][]int
+	switch st.stage {
+	case "g":
+		rules = c.front.g
+	case "s":
+		rules = c.front.s
+	case "r":
+		rules = c.front.r
+	case "n":
+		rules = c.front.n
+	}
+	for _, r := range rules {
+		if c.name(r[0]) == rcptTo {
+			var out []string
+			for _, o := range r[1:] {
+				out = append(out, c.name(o))
+			}
+			return out, nil
+		}
+	}
+	return []string{rcptTo}, nil
+}
+
+func (st *c18RwState) RewriteBody(ctx context.Context, h *textproto.Header, body buffer.Buffer) error {
+	return nil
+}
+func (st *c18RwState) Close() error { return nil }
+
+// c18Sink is what "deliver_to &verif_c18_sink" resolves to: it forwards Start to the real queue of
+// the case with exactly the arguments the pipeline passes (the *MsgMetadata pointer included).
+type c18Sink struct{}
+
+func (c18Sink) Init(*config.Map) error { return nil }
+func (c18Sink) Name() string           { return "verif_c18_sink" }
+func (c18Sink) InstanceName() string   { return "verif_c18_sink" }
+func (c18Sink) Start(ctx context.Context, msgMeta *module.MsgMetadata, mailFrom string) (module.Delivery, error) {
+	run, _ := ctx.Value(c18CtxKey{}).(*c18FrontRun)
+	if run == nil {
+		return nil, errors.New("verif_c18_sink: no case in the context")
+	}
+	return run.q.Start(ctx, msgMeta, mailFrom)
+}
+
+var (
+	c18PipeOnce             sync.Once
+	c18PipeFlat, c18PipeNst *msgpipeline.MsgPipeline
+)
+
+func c18Pipelines() (*msgpipeline.MsgPipeline, *msgpipeline.MsgPipeline) {
+	c18PipeOnce.Do(func() {
+		module.Register("modify.verif_c18_rw", func(_, _ string, _, inlineArgs []string) (module.Module, error) {
+			if len(inlineArgs) != 1 {
+				return nil, errors.New("verif_c18_rw: stage argument expected")
+			}
+			return &c18RwModifier{stage: inlineArgs[0]}, nil
+		})
+		module.RegisterInstance(c18Sink{}, nil)
+		mod := func(stage string) config.Node {
+			return config.Node{Name: "modify", Children: []config.Node{{Name: "verif_c18_rw", Args: []string{stage}}}}
+		}
+		sink := config.Node{Name: "deliver_to", Args: []string{"&verif_c18_sink"}}
+		build := func(last config.Node) *msgpipeline.MsgPipeline {
+			p, err := msgpipeline.New(map[string]interface{}{}, []config.Node{
+				mod("g"),
+				{Name: "default_source", Children: []config.Node{
+					mod("s"),
+					{Name: "default_destination", Children: []config.Node{mod("r"), last}},
+				}},
+			})
+			if err != nil {
+				panic(err)
+			}
+			p.Log = log.Logger{Out: log.NopOutput{}}
+			return p
+		}
+		c18PipeFlat = build(sink)
+		c18PipeNst = build(config.Node{Name: "reroute", Children: []config.Node{mod("n"), sink}})
+	})
+	return c18PipeFlat, c18PipeNst
+}
+
+// c18Submit hands the message of the case to the queue: directly (OriginalRcpts prepared by the
+// harness) or through the real pipeline(s).  Returns a description of a refusal ("" = accepted).
+func c18Submit(c *c18Case, q *Queue) string {
+	meta := &module.MsgMetadata{ID: c.msgid, OriginalFrom: c.name(c.ofrom), DontTraceSender: c.rcvd == "",
+		SMTPOpts: smtp.MailOptions{UTF8: c.utf8, RequireTLS: c.rtls}}
+	if c.rcvd != "" {
+		meta.Conn = &module.ConnState{Hostname: c.rcvd, Proto: "ESMTP"}
+	}
+	ctx := context.Background()
+	var d module.Delivery
+	var err error
+	var given []int
+	if c.front == nil {
+		if len(c.omap) > 0 {
+			meta.OriginalRcpts = map[string]string{}
+			for _, kv := range c.omap {
+				meta.OriginalRcpts[c.name(kv[0])] = c.name(kv[1])
+			}
+		}
+		d, err = q.Start(ctx, meta, c.name(c.from))
+		given = c.rcpts
+	} else {
+		flat, nst := c18Pipelines()
+		p := flat
+		if c.front.nested {
+			p = nst
+		}
+		ctx = context.WithValue(ctx, c18CtxKey{}, &c18FrontRun{c: c, q: q})
+		d, err = p.Start(ctx, meta, c.name(c.ofrom))
+		given = c.front.given
+	}
+	if err != nil {
+		return "start:" + err.Error()
+	}
+	for _, r := range given {
+		if err := d.AddRcpt(ctx, c.name(r), smtp.RcptOptions{}); err != nil {
+			d.Abort(ctx)
+			return "rcpt:" + err.Error()
+		}
+	}
+	if err := d.Body(ctx, vdsn.Header(c.hdr), buffer.MemoryBuffer{Slice: []byte("hello\r\n")}); err != nil {
+		d.Abort(ctx)
+		return "body:" + err.Error()
+	}
+	if err := d.Commit(ctx); err != nil {
+		return "commit:" + err.Error()
+	}
+	return ""
+}
+
 func c18RunCase(out *vh.Out, op string) {
 	c := c18Parse(op)
 	tgt := &c18Target{c: c}
@@ -458,32 +886,12 @@ func c18RunCase(out *vh.Out, op string) {
 		panic(err)
 	}
 
-	meta := &module.MsgMetadata{ID: c.msgid, OriginalFrom: c.name(c.ofrom), DontTraceSender: c.rcvd == "",
-		SMTPOpts: smtp.MailOptions{UTF8: c.utf8, RequireTLS: c.rtls}}
-	if c.rcvd != "" {
-		meta.Conn = &module.ConnState{Hostname: c.rcvd, Proto: "ESMTP"}
-	}
-	if len(c.omap) > 0 {
-		meta.OriginalRcpts = map[string]string{}
-		for _, kv := range c.omap {
-			meta.OriginalRcpts[c.name(kv[0])] = c.name(kv[1])
-		}
-	}
-	ctx := context.Background()
-	d, err := q.Start(ctx, meta, c.name(c.from))
-	if err != nil {
-		panic(err)
-	}
-	for _, r := range c.rcpts {
-		if err := d.AddRcpt(ctx, c.name(r), smtp.RcptOptions{}); err != nil {
-			panic(err)
-		}
-	}
-	if err := d.Body(ctx, vdsn.Header(c.hdr), buffer.MemoryBuffer{Slice: []byte("hello\r\n")}); err != nil {
-		panic(err)
-	}
-	if err := d.Commit(ctx); err != nil {
-		panic(err)
+	if refused := c18Submit(c, q); refused != "" {
+		// not an outcome the generators aim at: shown to the model as is (a divergence)
+		q.Close()
+		out.Corr(op, "submission-refused:"+vh.HexRunes(refused))
+		out.Stat("q.submission-refused")
+		return
 	}
 
 	deadline := time.Now().Add(30 * time.Second)
@@ -501,6 +909,7 @@ func c18RunCase(out *vh.Out, op string) {
 	// ---- canonical trace ----
 	tgt.mu.Lock()
 	tries := tgt.tries
+	omaps := tgt.omaps
 	tgt.mu.Unlock()
 	bounce.mu.Lock()
 	hos := bounce.hos
@@ -508,7 +917,7 @@ func c18RunCase(out *vh.Out, op string) {
 	parsed := map[*c18Handover]*vdsn.Parsed{}
 	var trace []string
 	for i, tr := range tries {
-		trace = append(trace, "try:"+strings.Join(tr, ","))
+		trace = append(trace, "try:"+strings.Join(tr, ",")+"@"+omaps[i])
 		logMu.Lock()
 		for _, g := range genErrs[i] {
 			trace = append(trace, "generr:"+g)
@@ -560,11 +969,18 @@ func c18RunCase(out *vh.Out, op string) {
 		gotTries = append(gotTries, strings.Join(tr, ","))
 	}
 	var wantTries []string
-	for _, tr := range exp.tries {
+	for k, tr := range exp.tries {
+		if exp.nostart[k] {
+			tr = nil // the target refused the transaction: no recipient was offered
+		}
 		wantTries = append(wantTries, c18Join(tr))
 	}
 	if strings.Join(gotTries, ";") != strings.Join(wantTries, ";") {
-		viol("report-delivery-affects-queue", fmt.Sprintf("attempts %s, expected %s (bounce fails at %c)", strings.Join(gotTries, ";"), strings.Join(wantTries, ";"), c.failAt))
+		sig := "report-delivery-affects-queue"
+		if c.failAt == '-' || !c.pipeline || c.ofrom == 0 {
+			sig = "retried-set-not-by-own-last-error" // no report delivery failed: the errors were attributed to the wrong recipients
+		}
+		viol(sig, fmt.Sprintf("attempts %s, expected %s (bounce fails at %c)", strings.Join(gotTries, ";"), strings.Join(wantTries, ";"), c.failAt))
 	}
 	// sanity of the inputs: everything the report has to show can be shown
 	sane := c18DomainOK(c.host, c.utf8) && c.host != "" && c18DomainOK(c.rcvd, c.utf8) && (c.from == 0 || c18Renders(c.name(c.from), c.utf8))
@@ -611,10 +1027,8 @@ func c18RunCase(out *vh.Out, op string) {
 			viaIntermediate := false
 			for _, r := range failed {
 				if c.levels[r] >= 2 {
-					for _, kv := range c.omap {
-						if kv[0] == r && !c18Renders(c.name(kv[1]), c.utf8) {
-							viaIntermediate = true
-						}
+					if im := c.intermediateOf(r); im != 0 && !c18Renders(c.name(im), c.utf8) {
+						viaIntermediate = true
 					}
 				}
 			}
@@ -673,8 +1087,32 @@ func c18RunCase(out *vh.Out, op string) {
 		if len(p.Rcpts) != len(failed) {
 			viol("recipient-set", fmt.Sprintf("%d recipient groups, %d recipients failed terminally", len(p.Rcpts), len(failed)))
 		}
+		// (one group PER failed recipient: two members of one alias, or two spellings of one
+		// mailbox, are two recipients with their own outcome - each needs a group of its own;
+		// among several groups showing the same address the one carrying this recipient's
+		// status is taken, so the order of the groups does not matter)
 		used := make([]bool, len(p.Rcpts))
-		for _, r := range failed {
+		statusOf := func(n *verr.Node) string {
+			cls := 5
+			if !c18Perm(n) {
+				cls = 4
+			}
+			wantSt := fmt.Sprintf("%d.0.0", cls)
+			e, ok := c18Ench(n)
+			if n.Kind == "R" {
+				e, ok = n.Ench, true
+			}
+			if ok && e != [3]int{0, 0, 0} {
+				wantSt = fmt.Sprintf("%d.%d.%d", e[0], e[1], e[2])
+			}
+			return wantSt
+		}
+		// recipients rewritten by one pipeline level at most first: their group has to be exactly
+		// right; a twice rewritten recipient (KF-C18-1: shown under the intermediate address) must
+		// not be credited with the group of another member of the same alias
+		order := append([]int{}, failed...)
+		sort.SliceStable(order, func(i, j int) bool { return c.levels[order[i]] < 2 && c.levels[order[j]] >= 2 })
+		for _, r := range order {
 			want := c.name(c.root[r])
 			found := -1
 			for gi, g := range p.Rcpts {
@@ -682,7 +1120,13 @@ func c18RunCase(out *vh.Out, op string) {
 					continue
 				}
 				_, a := vdsn.SplitTyped(g["Final-Recipient"][0])
-				if vdsn.SameMailbox(a, want) {
+				if !vdsn.SameMailbox(a, want) {
+					continue
+				}
+				if found < 0 {
+					found = gi
+				}
+				if len(g["Status"]) > 0 && strings.TrimSpace(g["Status"][0]) == statusOf(exp.lastE[k][r]) {
 					found = gi
 					break
 				}
@@ -709,19 +1153,7 @@ func c18RunCase(out *vh.Out, op string) {
 			if len(g["Status"]) > 0 {
 				st = strings.TrimSpace(g["Status"][0])
 			}
-			tmp := !c18Perm(n)
-			cls := 5
-			if tmp {
-				cls = 4
-			}
-			wantSt := fmt.Sprintf("%d.0.0", cls)
-			e, ok := c18Ench(n)
-			if n.Kind == "R" {
-				e, ok = n.Ench, true
-			}
-			if ok && e != [3]int{0, 0, 0} {
-				wantSt = fmt.Sprintf("%d.%d.%d", e[0], e[1], e[2])
-			}
+			wantSt := statusOf(n)
 			if st != wantSt {
 				viol("status-not-last-error", fmt.Sprintf("recipient %q: Status %s, last error carries %s (%s)", c.name(r), st, wantSt, n.String()))
 			}
@@ -755,6 +1187,20 @@ func c18RunCase(out *vh.Out, op string) {
 				}
 			} else {
 				viol("diagnostic-missing", fmt.Sprintf("recipient %q", c.name(r)))
+			}
+		}
+		// the explanation for the human reader names every failed recipient, too - once per
+		// recipient, under the address the sender used
+		needHuman := map[string]int{}
+		for _, r := range failed {
+			if c.levels[r] < 2 {
+				needHuman[c.name(c.root[r])]++
+			}
+		}
+		for nm, cnt := range needHuman {
+			if got := strings.Count(p.HumanTail, nm); got < cnt {
+				viol("human-part-recipients", fmt.Sprintf("%d failed recipient(s) the sender addressed as %q, the human-readable part names it %d time(s): %q", cnt, nm, got, p.HumanTail))
+				break
 			}
 		}
 		// never the addresses recipients were rewritten to
@@ -795,6 +1241,51 @@ func c18RunCase(out *vh.Out, op string) {
 	out.Stat(fmt.Sprintf("q.attempts.%d", len(tries)))
 	out.Stat(fmt.Sprintf("q.failAt.%c", c.failAt))
 	out.Stat(fmt.Sprintf("q.maxlevel.%d", maxLevel))
+	switch {
+	case c.front == nil:
+		out.Stat("q.front.direct")
+	case c.front.nested:
+		out.Stat("q.front.pipeline-nested")
+	default:
+		out.Stat("q.front.pipeline")
+	}
+	out.Stat(fmt.Sprintf("q.target.%c", c.kind))
+	for k := range exp.tries {
+		if k >= len(c.plans) {
+			break
+		}
+		p := c.plans[k]
+		refused, later := 0, 0
+		for _, r := range exp.tries[k] {
+			if p.rcpt[r] != nil {
+				refused++
+			} else if exp.lastE[k][r] != nil {
+				later++
+			}
+		}
+		switch {
+		case p.start != nil:
+			out.Stat("q.attempt.start-refused")
+		case refused > 0 && later > 0:
+			out.Stat("q.attempt.rcpt-refusals-then-data-or-commit-failure")
+		case later > 0:
+			out.Stat("q.attempt.data-or-commit-failure")
+		case refused > 0:
+			out.Stat("q.attempt.rcpt-refusals")
+		default:
+			out.Stat("q.attempt.all-delivered")
+		}
+		// several terminally failed recipients the sender knows under one address / one mailbox
+		seen := map[string]bool{}
+		for _, r := range exp.failed[k] {
+			key := strings.ToLower(c.name(c.root[r]))
+			if seen[key] {
+				out.Stat("q.failed.same-original-address-or-case-variant")
+				break
+			}
+			seen[key] = true
+		}
+	}
 	if nullSender {
 		out.Stat("q.null-sender")
 	}
@@ -829,21 +1320,49 @@ func c18Sanitise(r *vh.Rng, n *verr.Node) {
 	}
 }
 
+// c18Chain: one effective recipient: the address the sender used, then the address after each
+// rewriting step.  same[i]: step i+1 happens in the SAME pipeline as step i (a later modifier
+// stage) - the pipeline then records the sender's address for the result directly.
+type c18Chain struct {
+	addrs []int
+	same  []bool
+}
+
+type c18Given struct {
+	root   int
+	chains []c18Chain
+	stage  byte // modifier stage of the first step in front mode
+}
+
+func c18Lookupable(s string) bool {
+	if s == "" {
+		return true
+	}
+	_, err := address.ForLookup(s)
+	return err == nil
+}
+
 func c18GenCase(r *vh.Rng) *c18Case {
-	c := &c18Case{utf8: r.Bool(), rtls: r.Chance(20), pipeline: r.Chance(93), maxTries: 1 + r.Intn(3), failAt: '-',
+	c := &c18Case{utf8: r.Bool(), rtls: r.Chance(20), pipeline: r.Chance(93), maxTries: 1 + r.Intn(3), failAt: '-', kind: 'a',
 		names: map[int]string{}, root: map[int]int{}, levels: map[int]int{}, hdr: r.Intn(vdsn.NumHeaders()),
 		host: "mx.example.org", domain: r.Pick("example.org", "bounces.example.net"), msgid: fmt.Sprintf("%08x", r.Next()&0xffffffff)}
 	if r.Chance(40) {
 		c.failAt = "srbc"[r.Intn(4)]
+	}
+	if r.Chance(35) {
+		c.kind = 'p'
 	}
 	nfRoot := vdsn.NumASCIILocalForms
 	if c.utf8 {
 		nfRoot = vdsn.NumDeliverable
 	}
 	next := 0
+	formOf := map[int]int{}
+	numOf := map[int]int{}
 	newID := func(form int) int {
 		next++
 		c.names[next] = vdsn.Addr(form, next)
+		formOf[next], numOf[next] = form, next
 		return next
 	}
 	// sender
@@ -874,53 +1393,228 @@ func c18GenCase(r *vh.Rng) *c18Case {
 			c.rcvd = "xn--0.example"
 		}
 	}
+
+	// ---- the recipients the sender names and what the rewriting makes of them ----
+	front := r.Chance(60)
+	nested := front && r.Chance(45)
+	var given []c18Given
+	var roots []int
+	newRoot := func() int {
+		// 10%: the same mailbox as an earlier recipient in another case (u7@example.org / U7@EXAMPLE.ORG)
+		if len(roots) > 0 && r.Chance(10) {
+			o := roots[r.Intn(len(roots))]
+			dup := false
+			if f := formOf[o]; f == 0 || f == 1 {
+				for _, nm := range c.names {
+					if nm == vdsn.Addr(1-f, numOf[o]) {
+						dup = true
+					}
+				}
+			}
+			if f := formOf[o]; (f == 0 || f == 1) && !dup {
+				next++
+				c.names[next] = vdsn.Addr(1-f, numOf[o])
+				formOf[next], numOf[next] = 1-f, numOf[o]
+				roots = append(roots, next)
+				return next
+			}
+		}
+		id := newID(r.Intn(nfRoot))
+		roots = append(roots, id)
+		return id
+	}
 	nr := 1 + r.Intn(4)
+	sibling := false
 	if r.Chance(4) && nr >= 2 {
 		// siblings in one pipeline: A→B and B→C, both B and C are effective recipients
 		a := newID(r.Intn(nfRoot))
 		b := newID(r.Intn(nfRoot))
 		cc := newID(r.Intn(vdsn.NumDeliverable))
-		c.omap = append(c.omap, [2]int{b, a}, [2]int{cc, b})
-		c.rcpts = append(c.rcpts, b, cc)
-		c.root[b], c.levels[b] = a, 1
-		c.root[cc], c.levels[cc] = b, 1
+		roots = append(roots, a, b)
+		given = append(given, c18Given{root: a, chains: []c18Chain{{addrs: []int{a, b}, same: []bool{false}}}, stage: 'g'},
+			c18Given{root: b, chains: []c18Chain{{addrs: []int{b, cc}, same: []bool{false}}}, stage: 'g'})
 		nr -= 2
+		sibling = true
 	}
-	for i := 0; i < nr; i++ {
+	total := 2 * len(given)
+	for i := 0; i < nr && total < 5; i++ {
+		g := c18Given{root: newRoot(), stage: "gsr"[r.Intn(3)]}
+		if sibling {
+			g.stage = "sr"[r.Intn(2)] // the g rules of the sibling pair stay as they are
+		}
 		lv := 0
 		switch k := r.Intn(100); {
-		case k < 55:
-		case k < 85:
+		case k < 50:
+		case k < 83:
 			lv = 1
-		case k < 97:
+		case k < 96:
 			lv = 2
 		default:
 			lv = 3
 		}
-		root := newID(r.Intn(nfRoot))
-		cur := root
-		for l := 0; l < lv; l++ {
-			f := r.Intn(vdsn.NumDeliverable)
-			if l < lv-1 && r.Chance(10) {
-				f = r.Intn(vdsn.NumForms)
-			}
-			nx := newID(f)
-			c.omap = append(c.omap, [2]int{nx, cur})
-			cur = nx
+		if front && lv > 2 {
+			lv = 2
 		}
-		c.rcpts = append(c.rcpts, cur)
-		c.root[cur], c.levels[cur] = root, lv
+		members := 1
+		if lv >= 1 {
+			switch k := r.Intn(100); {
+			case k < 68:
+			case k < 93:
+				members = 2
+			default:
+				members = 3
+			}
+		}
+		for m := 0; m < members && total < 6; m++ {
+			depth := lv
+			if m > 0 && r.Chance(30) {
+				depth = 1 // members of one alias need not be rewritten equally often
+			}
+			if m == members-1 && members > 1 && r.Chance(12) {
+				depth = 0 // the alias keeps a copy for the address itself
+			}
+			// a second rewriting happens in a later modifier stage of the same pipeline or in a
+			// second (nested) pipeline; a third one only in a further pipeline
+			same1 := r.Chance(40)
+			if front && depth >= 2 {
+				canSame, canNest := g.stage != 'r', nested
+				switch {
+				case same1 && !canSame:
+					same1 = false
+					if !canNest {
+						depth = 1
+					}
+				case !same1 && !canNest:
+					same1 = true
+					if !canSame {
+						depth = 1
+					}
+				}
+			}
+			ch := c18Chain{addrs: []int{g.root}}
+			for l := 0; l < depth; l++ {
+				f := r.Intn(vdsn.NumDeliverable)
+				if l < depth-1 && r.Chance(10) {
+					f = r.Intn(vdsn.NumForms)
+				}
+				ch.addrs = append(ch.addrs, newID(f))
+				ch.same = append(ch.same, l == 1 && same1)
+			}
+			g.chains = append(g.chains, ch)
+			total++
+		}
+		given = append(given, g)
+	}
+	// what the queue is given, the ground truth, and the map a pipeline records (one entry per
+	// pipeline level that changed the address, naming what THAT pipeline was given)
+	var records [][2]int
+	for _, g := range given {
+		for _, ch := range g.chains {
+			eff := ch.addrs[len(ch.addrs)-1]
+			c.rcpts = append(c.rcpts, eff)
+			c.root[eff] = g.root
+			lvl := 0
+			in := g.root // what the current pipeline was given
+			for l := 1; l < len(ch.addrs); l++ {
+				last := l == len(ch.addrs)-1
+				if last || !ch.same[l] {
+					// the pipeline hands ch.addrs[l] on (to the queue or to the next pipeline)
+					if ch.addrs[l] != in {
+						records = append(records, [2]int{ch.addrs[l], in})
+						lvl++
+					}
+					in = ch.addrs[l]
+				}
+			}
+			c.levels[eff] = lvl
+		}
+	}
+	eligible := front
+	for _, nm := range c.names {
+		if !c18Lookupable(nm) {
+			eligible = false
+		}
+	}
+	if eligible {
+		f := &c18Front{nested: nested}
+		for _, g := range given {
+			f.given = append(f.given, g.root)
+			rule := []int{g.root}
+			stage2 := map[byte]*[][]int{'g': &f.s, 's': &f.r}
+			for _, ch := range g.chains {
+				if len(ch.addrs) == 1 {
+					rule = append(rule, g.root)
+					continue
+				}
+				rule = append(rule, ch.addrs[1])
+				if len(ch.addrs) == 3 {
+					if ch.same[1] {
+						*stage2[g.stage] = append(*stage2[g.stage], []int{ch.addrs[1], ch.addrs[2]})
+					} else {
+						f.n = append(f.n, []int{ch.addrs[1], ch.addrs[2]})
+					}
+				}
+			}
+			if len(rule) > 2 || rule[1] != g.root {
+				switch g.stage {
+				case 'g':
+					f.g = append(f.g, rule)
+				case 's':
+					f.s = append(f.s, rule)
+				default:
+					f.r = append(f.r, rule)
+				}
+			}
+		}
+		c.front = f
+	} else {
+		c.omap = records
+	}
+
+	// ---- what the downstream target answers, attempt by attempt ----
+	genErr := func() *verr.Node {
+		n := verr.Gen(r, r.Intn(4), r.Chance(88))
+		c18Sanitise(r, n)
+		return n
 	}
 	for k := 0; k < c.maxTries; k++ {
-		p := map[int]*verr.Node{}
+		p := c18NewPlan()
+		shape := r.Intn(100)
+		rcptPct := 78
+		if shape >= 45 {
+			rcptPct = 38
+		}
 		for _, rc := range c.rcpts {
-			if r.Chance(22) {
-				continue
+			if r.Chance(rcptPct) {
+				p.rcpt[rc] = genErr()
 			}
-			depth := r.Intn(4)
-			n := verr.Gen(r, depth, r.Chance(88))
-			c18Sanitise(r, n)
-			p[rc] = n
+		}
+		switch {
+		case shape < 45: // refusals at RCPT only
+		case shape < 80: // …then the message is refused after DATA
+			if c.kind == 'p' {
+				for _, rc := range c.rcpts {
+					if r.Chance(60) {
+						p.bodyRc[rc] = genErr()
+					}
+				}
+			} else if r.Chance(80) {
+				p.body = genErr()
+			}
+		default: // …then the final acknowledgement fails
+			if r.Chance(80) {
+				p.commit = genErr()
+			}
+			if c.kind == 'p' {
+				for _, rc := range c.rcpts {
+					if r.Chance(25) {
+						p.bodyRc[rc] = genErr()
+					}
+				}
+			}
+		}
+		if r.Chance(5) {
+			p.start = genErr()
 		}
 		c.plans = append(c.plans, p)
 	}
@@ -931,6 +1625,7 @@ func TestVerifC18Queue(t *testing.T) {
 	out := vh.Open("c18_queue")
 	defer out.Close()
 	dontRecover = false
+	c18Pipelines()
 	if ops := vh.Replay(); ops != nil {
 		for _, op := range ops {
 			if strings.HasPrefix(op, "C18 q ") {
